@@ -7,6 +7,9 @@ GROUPS = [dict(g) for g in _c02.GROUPS if g["name"].startswith("hmm_vit_eval")] 
          bounded=None),
 ]
 NATIVE = [
+    dict(name="e2e_invariants", source="native/e2e_invariants.c", repo_sources="ALL_EXCEPT:", cflags=["-w", "-fsanitize=address"],
+         args={"quick": ["C18"], "thorough": ["C18"]}, exhaustive=False,
+         bound="on ~25 real decodes (see C01): after every 2048-sample block the channel-normalisation text exported mid-utterance (decoder_get_cmn) equals the state in use to the printed precision"),
     dict(name="senone_score_enum", source="native/senone_score_enum.c", repo_sources="ALL_EXCEPT:", cflags=["-w", "-fsanitize=address"],
          args={"quick": [], "thorough": ["thorough"]}, exhaustive=False,
          bound="every frame of goforward.raw (en-us) and goforward_fr.raw (fr-fr), 3 rounds (thorough 12): scored through acmod_score for the senones of 1..6 random base phones (or all), "
